@@ -249,6 +249,47 @@ fn gen(args: &Args, emit: &mut dyn FnMut(String), st: &mut Stats) {
             }
         }
     }
+    // (3b) a small stream far outside the 2^20 box (operands up to 2^62, minimum excluded): the property does not
+    //      constrain the result there (`S any`), but the checked i64 model (`egcdT`, `crtT`) mirrors overflow panics,
+    //      so the raw results are still compared
+    let n = if thorough { 40_000 } else { 2_000 };
+    let big = |rng: &mut SplitMix64| -> i64 {
+        let sh = rng.below(62);
+        let v = (rng.next_u64() >> 2) as i64 >> sh;
+        if rng.chance(1, 2) { -v } else { v }
+    };
+    for _ in 0..n {
+        if rng.chance(1, 2) {
+            let (mut a, mut b, c) = (big(&mut rng), big(&mut rng), big(&mut rng));
+            if rng.chance(1, 3) {
+                let f = rng.range_i64(1, 1 << 20);
+                a = (a / f) * f;
+                b = (b / f) * f;
+            }
+            let c = if rng.chance(1, 2) {
+                let g = gcd_i128(a as i128, b as i128) as i64;
+                if g != 0 { (c / g) * g } else { c }
+            } else {
+                c
+            };
+            emit(format!("egcd {} {} {}", a, b, c));
+            st.bump("egcd_outside_box");
+        } else {
+            let m1 = big(&mut rng).abs().max(1);
+            let m2 = big(&mut rng).abs().max(1);
+            let a1 = rng.range_i64(0, m1 - 1);
+            let a2 = if rng.chance(1, 2) {
+                let g = gcd_i128(m1 as i128, m2 as i128) as i64;
+                let base = a1 % g;
+                let k = rng.range_i64(0, (m2 - 1 - base).max(0) / g);
+                ((base as i128 + k as i128 * g as i128).min(m2 as i128 - 1)) as i64
+            } else {
+                rng.range_i64(0, m2 - 1)
+            };
+            emit(format!("crt {} {} {} {}", a1, m1, a2, m2));
+            st.bump("crt_outside_box");
+        }
+    }
     // (4) out-of-domain probes whose behaviour the model mirrors (panics), a separate small stream
     for c in -2..=2 {
         emit(format!("egcd 0 0 {}", c));
